@@ -574,3 +574,7 @@ mod builtins {
 
 #[cfg(feature = "builtins")]
 pub use self::builtins::*;
+
+#[cfg(kani)]
+#[path = "/verif/kani/functions.rs"]
+mod verif_kani;
